@@ -27,7 +27,7 @@ var preds = []pred{
 func c12(r *R) {
 	L := 7
 	if thorough {
-		L = 8
+		L = 10
 	}
 	alpha := []int{0, 1, 2}
 	all := enum.AllSlices(alpha, L)
